@@ -261,3 +261,31 @@ func specNameFails(e *expander, ref jsonschema.Ref) bool {
 //@                       vHas(e.localToRemote, localRef) && e.localToRemote[localRef].ref == ref &&
 //@                       (forall k string :: k != localRef ==> vHas(e.localToRemote, k) == vHas(old(e.localToRemote), k) && e.localToRemote[k].ref == old(e.localToRemote)[k].ref)
 //@   ensures accept:   !specNameFails(e, ref) && !(vHas(old(e.localToRemote), prefix + specLocalName(e, ref)) && old(e.localToRemote)[prefix + specLocalName(e, ref)].ref != ref) ==> err == nil
+
+// ---------------------------------------------------------------------------
+// Path items (C07): the operations of a parsed path item carry the path of the site they were parsed
+// for, so - referencing equals inlining - whichever path refers to a path-item component, the
+// operations it gets are built for THAT path. specItemFor is the (uninterpreted) "built for path"
+// attribute of a parsed path item; the trusted contract of parsePathItem says the parser sets it to
+// the path it is given.
+// ---------------------------------------------------------------------------
+
+func specItemFor(it pathItem) string { panic("uninterpreted: the path template the operations of a parsed path item were built for") }
+
+//@ func (p *parser) parsePathItem(up unparsedPath, item *ogen.PathItem, ctx *jsonpointer.ResolveCtx) (r pathItem, rerr error)
+//@   trusted induction hypothesis: nested resolution leaves the resolve context balanced; the operations are built for the given path
+//@   modifies ctx.depthLimit, ctx.refs[*], ctx.locstack
+//@   ensures depth: jsonpointer.VerifDepth(ctx) == old(jsonpointer.VerifDepth(ctx))
+//@   ensures stack: jsonpointer.VerifStack(ctx) == old(jsonpointer.VerifStack(ctx))
+//@   ensures keys:  forall k jsonpointer.RefKey :: jsonpointer.VerifInProgress(ctx, k) == old(jsonpointer.VerifInProgress(ctx, k))
+//@   ensures forpath: rerr == nil ==> specItemFor(r) == up.path
+
+//@ func (p *parser) resolvePathItem(itemPath unparsedPath, ref string, ctx *jsonpointer.ResolveCtx) (r pathItem, err error)
+//@   requires ctx:   ctx != nil && jsonpointer.VerifWF(ctx) && p.spec != nil && p.spec.Components != nil && p.refs.pathItems != nil
+//@   requires room:  jsonpointer.VerifDepth(ctx) < 9223372036854775807
+//@   inline resolveComponent
+//@   modifies ctx.depthLimit, ctx.refs[*], ctx.locstack, p.refs.pathItems[*], p.schemas[*]
+//@   ensures depth: jsonpointer.VerifDepth(ctx) == old(jsonpointer.VerifDepth(ctx))
+//@   ensures keys:  forall k jsonpointer.RefKey :: jsonpointer.VerifInProgress(ctx, k) == old(jsonpointer.VerifInProgress(ctx, k))
+//@   ensures stack: jsonpointer.VerifStack(ctx) == old(jsonpointer.VerifStack(ctx))
+//@   ensures forpath: err == nil ==> specItemFor(r) == itemPath.path
